@@ -452,3 +452,6 @@ for _m in (0, 1, 2):
 
 scn.register(globals(), {"C07", "C02", "C03", "C09"}, ["fan_retry_inner_retry"],
              {"fan_retry_inner_retry": [("_k%d" % k, "kind == %d" % k) for k in (0, 1)]})
+
+import s2_more as more
+more.register(globals(), {"C07", "C02", "C03", "C09"}, ["map_retry_batches"])
